@@ -12,11 +12,15 @@ Definition build (m : mspec) : list byte :=
   | _ :: t => n2b (m_first m) :: t
   end.
 
-(* observed: frames handed to the Salamander layer, wire datagram sizes, returned n *)
-Record mobs := mkO { ob_frames : list (list byte); ob_wire : list Z; ob_n : Z }.
+(* observed: frames the inner (Salamander) conn accepted, their wire datagram sizes, returned n;
+   the inner fault of this call: index of the inner WriteTo call that returned an error (if any), the
+   frame it refused, and whether WriteTo returned an error *)
+Record mobs := mkO { ob_frames : list (list byte); ob_wire : list Z; ob_n : Z;
+                     ob_fail : option nat; ob_ref : list byte; ob_err : bool }.
 
 Inductive op :=
 | OFrame (d : Z) (s : N) (m i : nat)                 (* frame i (mod count) of message m from s *)
+| OFrameE (d : Z) (s : N) (m i : nat)                (* frame with exactly index i (an empty datagram when there is none) *)
 | OMut (d : Z) (s : N) (m i pos : nat) (v : N)        (* the same with one byte overwritten *)
 | OPkt (d : Z) (s : N) (b : list byte)               (* raw inner datagram *)
 | OSleep (d : Z)                                     (* clock advance; the gc loop runs *)
@@ -37,9 +41,9 @@ Definition frames_eqb (a b : list (list byte)) : bool :=
   Nat.eqb (length a) (length b) && forallb (fun p => bytes_eqb (fst p) (snd p)) (combine a b).
 
 (* the random draws that explain an observed frame list (if any do) *)
-Definition oracle_of (c : cfg) (fs : list (list byte)) : oracle :=
+Definition oracle_of (c : cfg) (fs : list (list byte)) (nchunks : N) : oracle :=
   let padof := fun f : list byte => be_dec [nth 3 f x00; nth 4 f x00] in
-  mkOracle (N.of_nat (length fs) - 2)
+  mkOracle (nchunks - 2)
     (fun i => let f := nth i fs [] in
               let P := Z.of_N (padof f) in
               let L := zlen f - geckoHeaderSize - P in
@@ -62,17 +66,39 @@ Fixpoint check_msgs (c : cfg) (ctrs : list N) (ms : list (mspec * mobs)) : bool 
   | (m, o) :: t =>
       let ctr := nth (m_snd m) ctrs 0%N in
       let p := build m in
-      match write_to c ctr p (oracle_of c (ob_frames o)) with
-      | Ok (fs, ctr', n) =>
-          frames_eqb fs (ob_frames o) && (n =? ob_n o) &&
-          Z_list_eqb (map (fun f => smSaltLen + zlen f) fs) (ob_wire o) &&
-          check_msgs c (upd_nth (m_snd m) ctr' ctrs) t
+      (* frames handed to the inner conn = accepted ones ++ the refused one; the chunk count of a call
+         that was cut short is read off the header of its first frame *)
+      let att := match ob_fail o with Some _ => ob_frames o ++ [ob_ref o] | None => ob_frames o end in
+      let nch := match ob_fail o with
+                 | Some _ => N.land (b2n (nth 2 (nth 0 att []) x00)) 15
+                 | None => N.of_nat (length att)
+                 end in
+      match write_to_f c ctr p (oracle_of c att nch) (ob_fail o) with
+      | Ok r =>
+          frames_eqb (w_wire r) (ob_frames o) &&
+          match w_res r with
+          | WDone n => negb (ob_err o) && (n =? ob_n o)
+          | WFail => ob_err o && (ob_n o =? 0)
+          end &&
+          match w_refused r, ob_fail o with
+          | Some f, Some _ => bytes_eqb f (ob_ref o)
+          | None, None => true
+          | _, _ => false
+          end &&
+          Z_list_eqb (map (fun f => smSaltLen + zlen f) (w_wire r)) (ob_wire o) &&
+          (* without a fault the fault-aware function is write_to *)
+          match ob_fail o, write_to c ctr p (oracle_of c att nch) with
+          | None, Ok (fs, ctr', n) => frames_eqb fs (w_wire r) && (ctr' =? w_ctr r)%N
+          | None, _ => false
+          | Some _, _ => true
+          end &&
+          check_msgs c (upd_nth (m_snd m) (w_ctr r) ctrs) t
       | _ => false
       end
   end.
 
 Definition op_delay (o : op) : Z :=
-  match o with OFrame d _ _ _ | OMut d _ _ _ _ _ | OPkt d _ _ | OSleep d | OGc d _ => d end.
+  match o with OFrame d _ _ _ | OFrameE d _ _ _ | OMut d _ _ _ _ _ | OPkt d _ _ | OSleep d | OGc d _ => d end.
 
 Definition frame_of (frames : list (list (list byte))) (m i : nat) : list byte :=
   let fs := nth m frames [] in
@@ -124,6 +150,7 @@ Fixpoint run_ops (rbuf : nat) (frames : list (list (list byte))) (st : rstate) (
       | OGc _ tk => let st2 := gc_expired tk st1 in
                     run_ops rbuf frames st2 now1 (N.succ i) (hrow h (obs_row None st2 None)) t rest hexp final
       | OFrame _ s m i' => pkt s (frame_of frames m i')
+      | OFrameE _ s m i' => pkt s (nth i' (nth m frames []) [])
       | OMut _ s m i' pos v =>
           let f := frame_of frames m i' in
           pkt s (match f with [] => [] | _ => upd_nth (pos mod length f) (n2b v) f end)
